@@ -238,6 +238,7 @@ func init() {
 		ruleC13Extra(prog, rep)
 		ruleSliceBound(prog, rep)
 		ruleFilterRoot(prog, rep, func(fn string) bool { return filterRootMutators[fn] })
+		ruleResliceInput(prog, rep, "jp")
 		rulePushPair(prog, rep, func(fd *ast.FuncDecl) bool { return twinScope(fd) == "C13" }, 2)
 		ruleAppendRetain(prog, rep, "jp")
 		rulePresenceByNil(prog, rep)
